@@ -15,6 +15,11 @@ pub(crate) fn with_source_model<E: std::error::Error + Send + Sync + 'static>(mu
     this
 }
 
+/// The span recorded in an error (the public accessor `Error::range()` needs the `debug` feature).
+pub(crate) fn span_of(e: &Error) -> Option<Span> {
+    e.repr.span
+}
+
 #[cfg(test)]
 mod playback {
     use super::*;
